@@ -1,14 +1,20 @@
 (** Read-side theorems (R) for the classes whose from_xml has no canonical descriptor, on the
     Gallina regenerated from simpletypes.py (gen/GenC11.v): for EVERY string of the lexical
     space of the schema type (an integer in range, a percent string, a universal-measure
-    string, a string of one of the transcribed pattern facets), from_xml returns a value.
-    The only exclusions are CPython limits, stated as hypotheses and shown necessary by
-    witnesses: the 4300-digit limit of int() and float overflow inside round(). *)
+    string, a string of one of the transcribed pattern facets, an xsd:double literal), from_xml
+    returns a value.  Exclusions are CPython limits, stated as hypotheses and shown necessary by
+    witnesses: the 4300-digit limit of int() ( R_int_digit_limit_refuted ), int / float overflow
+    beyond the doubles ( R_Percentage_big_int_refuted ), float overflow inside round for
+    universal measures of more than about 300 digits ( R_Coordinate_long_measure_refuted ).
+    REFUTED: ST_Coordinate cannot read the guide-name alternative of ST_AdjCoordinate
+    ( R_Coordinate_refuted; recorded finding r:ST_Coordinate:other ).
+    Lifted to attribute rows in C11_rows_custom_read.v. *)
 From V.lib Require Import Prelude PyFloat PyVal.
 From V.model Require Import SimpleTypeLib.
 From V.proofs Require Import Prelude_proofs PyFloat_proofs SimpleTypeLib_proofs C11_float_instance
   C11_regex C11_patterns C11_write_instance.
 From V.gen Require Import GenC11.
+From Coq Require Import Lia ZifyBool.
 Local Open Scope Z_scope.
 
 (** ---- python float() on decimal literals ---- *)
@@ -72,10 +78,12 @@ Qed.
 Lemma str_eqb_hd_ne c r x y : (c =? x)%N = false -> str_eqb (c :: r) (x :: y) = false.
 Proof. intros H. cbn [str_eqb]. now rewrite H. Qed.
 
-(** python float() reads every string of the form  sign? digits ( . digits )?  *)
-Lemma f_of_str_decimal sg b :
+(** python float() reads every string of the form  sign? digits ( . digits )?  as the
+    correctly rounded value of its digits scaled by a non-positive power of ten *)
+Lemma f_of_str_decimal_form sg b :
   (sg = [] \/ sg = [45%N]) -> dec_shape b ->
-  exists f, f_of_str (sg ++ b) = Ok f /\ f <> NaN.
+  exists ds x, f_of_str (sg ++ b) = Ok (dec_to_float (str_eqb sg [45%N]) ds x)
+    /\ forallb is_digit ds = true /\ x <= 0 /\ (length ds <= length b)%nat.
 Proof.
   intros Hsg (ip & Hip & Hb).
   destruct (all_digits_cons _ Hip) as (c & r & Eip & Hc & Fip).
@@ -117,14 +125,942 @@ Proof.
   assert (Hlow : map ascii_lower b = c :: map ascii_lower b').
   { rewrite Eb. cbn [map]. now rewrite (digit_lower c Hc). }
   rewrite Hlow.
-  assert (Hc105 : (c =? 105)%N = false) by (apply is_digit_bounds in Hc; apply N.eqb_neq; lia).
-  assert (Hc110 : (c =? 110)%N = false) by (apply is_digit_bounds in Hc; apply N.eqb_neq; lia).
+  assert (Hc105 : (c =? 105)%N = false) by (apply is_digit_bounds in Hc; apply N.eqb_neq; clear - Hc; lia).
+  assert (Hc110 : (c =? 110)%N = false) by (apply is_digit_bounds in Hc; apply N.eqb_neq; clear - Hc; lia).
   unfold s_inf, s_infinity, s_nan. rewrite !str_eqb_hd_ne by assumption. cbn [orb].
   destruct Hb as [Hb|(fp & Hfp & Hb)].
   - rewrite Hb, (take_while_all _ _ Fip), (drop_while_all _ _ Fip), app_nil_r.
-    rewrite Eip. cbn [parse_exp]. eexists. split; [reflexivity|apply dec_to_float_not_nan].
+    exists ip, (0 - Z.of_nat (@length N [])).
+    split; [rewrite Eip; reflexivity|]. split; [exact Fip|]. split; [apply Z.leb_le; reflexivity|]. apply le_n.
   - destruct (all_digits_cons _ Hfp) as (_ & _ & _ & _ & Ffp).
     rewrite Hb, (take_while_app_stop is_digit ip 46%N fp Fip eq_refl), (drop_while_app_stop is_digit ip 46%N fp Fip eq_refl).
     rewrite N.eqb_refl, (take_while_all _ _ Ffp), (drop_while_all _ _ Ffp).
-    rewrite Eip. cbn [app parse_exp]. eexists. split; [reflexivity|apply dec_to_float_not_nan].
+    exists (ip ++ fp), (0 - Z.of_nat (length fp)).
+    split; [rewrite Eip; reflexivity|]. split; [rewrite forallb_app, Fip, Ffp; reflexivity|].
+    split; [clear - fp; lia|]. rewrite !app_length. cbn [length]. clear - ip fp. lia.
 Qed.
+
+Lemma f_of_str_decimal sg b :
+  (sg = [] \/ sg = [45%N]) -> dec_shape b ->
+  exists f, f_of_str (sg ++ b) = Ok f /\ f <> NaN.
+Proof.
+  intros Hsg Hb. destruct (f_of_str_decimal_form sg b Hsg Hb) as (ds & x & E & _).
+  eexists. split; [exact E|apply dec_to_float_not_nan].
+Qed.
+
+(** ---- strings: membership of a character, suffixes, slices ---- *)
+Lemma is_substr1 c s : is_substr [c] s = existsb (N.eqb c) s.
+Proof.
+  induction s as [|x s IH]; [reflexivity|].
+  cbn [is_substr starts_with existsb]. rewrite IH, andb_true_r. reflexivity.
+Qed.
+
+Lemma py_in_char c s : py_in (PStr [c]) (PStr s) = Ok (existsb (N.eqb c) s).
+Proof. cbn [py_in]. now rewrite is_substr1. Qed.
+
+Lemma existsb_digits_false c ds : is_digit c = false -> forallb is_digit ds = true -> existsb (N.eqb c) ds = false.
+Proof.
+  intros Hc. induction ds as [|d ds IH]; [reflexivity|]. cbn [forallb existsb]. intros H.
+  apply andb_true_iff in H as [Hd Hr]. rewrite (IH Hr), orb_false_r.
+  apply N.eqb_neq. intros ->. congruence.
+Qed.
+
+Lemma all_digits_forallb ds : all_digits ds = true -> forallb is_digit ds = true.
+Proof. intros A. now destruct (all_digits_cons _ A) as (_ & _ & _ & _ & F). Qed.
+
+(** a character that is neither a digit nor a sign does not occur in an integer literal *)
+Lemma int_lit_free c s z : lex_integer s = Some z -> is_digit c = false -> c <> 45%N -> c <> 43%N ->
+  existsb (N.eqb c) s = false.
+Proof.
+  intros H Hd H45 H43. destruct (lex_integer_shape s z H) as (sg & ds & -> & Hsg & A & _).
+  rewrite existsb_app, (existsb_digits_false c ds Hd (all_digits_forallb _ A)), orb_false_r.
+  destruct Hsg as [->|[->| ->]]; cbn [existsb]; [reflexivity| |]; rewrite orb_false_r; apply N.eqb_neq; assumption.
+Qed.
+
+(** nor does an integer literal end with it *)
+Lemma int_lit_not_ends c s z : lex_integer s = Some z -> is_digit c = false -> ends_with [c] s = false.
+Proof.
+  intros H Hd. destruct (lex_integer_shape s z H) as (sg & ds & -> & _ & A & _).
+  destruct (all_digits_rev_head _ A) as (l & t & Er & Hl).
+  unfold ends_with. rewrite rev_app_distr, Er. cbn [rev app starts_with].
+  rewrite andb_true_r. apply N.eqb_neq. intros ->. congruence.
+Qed.
+
+Lemma ends_with_snoc c a : ends_with [c] (a ++ [c]) = true.
+Proof. unfold ends_with. rewrite rev_app_distr. cbn [rev app starts_with]. now rewrite N.eqb_refl. Qed.
+
+Lemma existsb_snoc c a : existsb (N.eqb c) (a ++ [c]) = true.
+Proof. rewrite existsb_app. cbn [existsb]. now rewrite N.eqb_refl, orb_true_r. Qed.
+
+Lemma firstn_app_suffix {A} (a u : list A) : firstn (length (a ++ u) - length u) (a ++ u) = a.
+Proof.
+  rewrite app_length. replace (length a + length u - length u)%nat with (length a + 0)%nat by lia.
+  rewrite firstn_app_2. cbn [firstn]. apply app_nil_r.
+Qed.
+
+Lemma skipn_app_suffix {A} (a u : list A) : skipn (length (a ++ u) - length u) (a ++ u) = u.
+Proof.
+  rewrite app_length. replace (length a + length u - length u)%nat with (length a) by lia.
+  rewrite skipn_app, skipn_all, Nat.sub_diag. reflexivity.
+Qed.
+
+Lemma slice_to_neg a u : py_slice_to_neg (PStr (a ++ u)) (length u) = Ok (PStr a).
+Proof. cbn [py_slice_to_neg with_str]. now rewrite firstn_app_suffix. Qed.
+Lemma slice_from_neg a u : py_slice_from_neg (PStr (a ++ u)) (length u) = Ok (PStr u).
+Proof. cbn [py_slice_from_neg with_str]. now rewrite skipn_app_suffix. Qed.
+
+(** s.replace(c, empty) on a string that holds c only as its last character *)
+Lemma replace1_snoc c a : existsb (N.eqb c) a = false ->
+  py_replace1 (PStr (a ++ [c])) (PStr [c]) (PStr []) = Ok (PStr a).
+Proof.
+  intros H. cbn [py_replace1 with_str]. do 2 f_equal. rewrite flat_map_app. cbn [flat_map].
+  rewrite N.eqb_refl. cbn [app]. rewrite app_nil_r.
+  induction a as [|x a IH]; [reflexivity|]. cbn [existsb] in H. apply orb_false_iff in H as [Hx Hr].
+  cbn [flat_map]. rewrite N.eqb_sym, Hx. cbn [app]. now rewrite (IH Hr).
+Qed.
+
+(** ---- python int() on the schema's integer literals ---- *)
+Lemma lex_int_inv lo hi s : lex_ok (LInt lo hi) s = true -> exists z, lex_integer s = Some z /\ lo <= z <= hi.
+Proof.
+  cbn [lex_ok]. destruct (lex_integer s) as [z|]; [|discriminate]. intros H.
+  apply andb_true_iff in H as [H1 H2]. apply Z.leb_le in H1, H2. eauto.
+Qed.
+
+Lemma py_int_lex s z : lex_integer s = Some z -> (N.of_nat (length s) <= int_max_str_digits)%N ->
+  py_int (PStr s) = Ok (PInt z).
+Proof. intros H L. cbn [py_int]. now rewrite (int_of_str_lex_len s z H L). Qed.
+
+(** sign and digits: what the chart percent patterns leave once the percent sign is gone *)
+Lemma py_int_signed_digits sg ds : (sg = [] \/ sg = [45%N]) -> all_digits ds = true ->
+  (N.of_nat (length (sg ++ ds)) <= int_max_str_digits)%N ->
+  exists z, py_int (PStr (sg ++ ds)) = Ok (PInt z).
+Proof.
+  intros Hsg A L. cbn [py_int]. rewrite int_of_str_signed_digits; [|tauto|exact A].
+  rewrite app_length in L.
+  destruct (N.ltb_spec int_max_str_digits (N.of_nat (length ds))); [lia|]. cbn [bind]. eauto.
+Qed.
+
+(** ---- float conversions and divisions that cannot fail ---- *)
+Definition big300 : Z := 10 ^ 300.
+
+Lemma fin_leb_int a b : a <= b -> f_leb (Fin a 0) (Fin b 0) = true.
+Proof. intros H. rewrite (fin_leb_scale a 0 b 0 0) by lia. apply Z.leb_le. change (2 ^ (0 - 0)) with 1. lia. Qed.
+
+(** float(int) of an integer of at most 300 digits is finite *)
+Lemma f_of_Z_bounded z : - big300 <= z <= big300 -> exists m e, f_of_Z z = Ok (Fin m e).
+Proof.
+  intros [H1 H2].
+  assert (U : f_leb (round_dy z 0) (round_dy big300 0) = true) by (apply round_dy_mono, fin_leb_int; exact H2).
+  assert (L : f_leb (round_dy (- big300) 0) (round_dy z 0) = true) by (apply round_dy_mono, fin_leb_int; exact H1).
+  unfold f_of_Z. pose proof (round_dy_not_nan z 0) as Hn.
+  destruct (round_dy z 0) as [m e| | |]; [eauto| | |congruence].
+  - vm_compute in U. discriminate U.
+  - vm_compute in L. discriminate L.
+Qed.
+
+Lemma f_div_fin_ok a m e : m <> 0 -> exists r, f_div a (Fin m e) = Ok r.
+Proof.
+  intros Hm. unfold f_div. cbn [f_is_zero]. destruct (Z.eqb_spec m 0); [contradiction|].
+  destruct a; eauto.
+Qed.
+
+Lemma truediv_float_float f m e : m <> 0 -> exists r, py_truediv (PFloat f) (PFloat (Fin m e)) = Ok (PFloat r).
+Proof.
+  intros Hm. unfold py_truediv, arith. cbn [as_num num_float bind].
+  destruct (f_div_fin_ok f m e Hm) as [r ->]. cbn [bind]. eauto.
+Qed.
+
+Lemma truediv_float_int f c : c <> 0 -> Z.abs c < 2 ^ 53 -> exists r, py_truediv (PFloat f) (PInt c) = Ok (PFloat r).
+Proof.
+  intros Hc Hb. unfold py_truediv, arith. cbn [as_num num_float bind]. rewrite (f_of_Z_small c Hb).
+  destruct (Z.eqb_spec c 0); [contradiction|]. cbn [bind].
+  destruct (f_div_fin_ok f c 0 Hc) as [r ->]. cbn [bind]. eauto.
+Qed.
+
+Lemma truediv_int_float z m e : m <> 0 -> - big300 <= z <= big300 ->
+  exists r, py_truediv (PInt z) (PFloat (Fin m e)) = Ok (PFloat r).
+Proof.
+  intros Hm Hz. unfold py_truediv, arith. cbn [as_num num_float bind].
+  destruct (f_of_Z_bounded z Hz) as (m' & e' & ->). cbn [bind].
+  destruct (f_div_fin_ok (Fin m' e') m e Hm) as [r ->]. cbn [bind]. eauto.
+Qed.
+
+(** ---- integer readers: ST_Angle, ST_PositiveFixedAngle, ST_TextSpacingPoint ---- *)
+Lemma angle_read s z : lex_integer s = Some z -> (N.of_nat (length s) <= int_max_str_digits)%N ->
+  exists v, (v_rot <- (t <- py_int (PStr s) ;; py_mod t (PInt 21600000)) ;;
+             (t26 <- py_float v_rot ;; py_truediv t26 (PInt 60000))) = Ok v.
+Proof.
+  intros H L. rewrite (py_int_lex s z H L). cbn [bind]. unfold py_mod, arith. cbn [as_num].
+  change (21600000 =? 0) with false. cbn [bind py_float].
+  pose proof (Z.mod_pos_bound z 21600000 ltac:(lia)) as B.
+  rewrite f_of_Z_small by (change (2 ^ 53) with 9007199254740992; lia). cbn [bind].
+  match goal with |- context [py_truediv (PFloat ?f)] =>
+    destruct (truediv_float_int f 60000 ltac:(lia) ltac:(change (2 ^ 53) with 9007199254740992; lia)) as [r ->] end.
+  eauto.
+Qed.
+
+(** R for ST_Angle (a:xfrm/@rot): every integer literal is read (python int, then modulo a
+    full turn, then degrees); the only exclusion is the interpreter's digit limit *)
+Theorem R_Angle : forall lo hi s, lex_ok (LInt lo hi) s = true ->
+  (N.of_nat (length s) <= int_max_str_digits)%N -> exists v, ST_Angle__from_xml (PStr s) = Ok v.
+Proof.
+  intros lo hi s H L. destruct (lex_int_inv lo hi s H) as (z & Hz & _).
+  unfold ST_Angle__from_xml, ST_Angle__convert_from_xml. exact (angle_read s z Hz L).
+Qed.
+
+Theorem R_PositiveFixedAngle : forall lo hi s, lex_ok (LInt lo hi) s = true ->
+  (N.of_nat (length s) <= int_max_str_digits)%N -> exists v, ST_PositiveFixedAngle__from_xml (PStr s) = Ok v.
+Proof.
+  intros lo hi s H L. destruct (lex_int_inv lo hi s H) as (z & Hz & _).
+  unfold ST_PositiveFixedAngle__from_xml, ST_PositiveFixedAngle__convert_from_xml. exact (angle_read s z Hz L).
+Qed.
+
+Theorem R_TextSpacingPoint : forall lo hi s, lex_ok (LInt lo hi) s = true ->
+  (N.of_nat (length s) <= int_max_str_digits)%N -> exists v, ST_TextSpacingPoint__from_xml (PStr s) = Ok v.
+Proof.
+  intros lo hi s H L. destruct (lex_int_inv lo hi s H) as (z & Hz & _).
+  unfold ST_TextSpacingPoint__from_xml, ST_TextSpacingPoint__convert_from_xml.
+  rewrite (py_int_lex s z Hz L). cbn [bind py_Centipoints py_mul arith as_num py_int]. eauto.
+Qed.
+
+(** the digit limit is necessary: 4301 zeros are the integer 0 for the schema, python int refuses them *)
+Theorem R_int_digit_limit_refuted : exists s, lex_ok (LInt 0 158400) s = true
+  /\ ST_TextSpacingPoint__from_xml (PStr s) = Err ValueErr /\ ST_Angle__from_xml (PStr s) = Err ValueErr.
+Proof. exists (repeat 48%N 4301). vm_compute. repeat split. Qed.
+
+Example R_int_examples :
+  ST_Angle__from_xml (PStr [45; 53]%N) = Ok (PFloat (Fin 6333185509974256 (-44)))
+  /\ lex_ok (LInt (-2147483648) 2147483647) [45; 53]%N = true
+  /\ ST_TextSpacingPoint__from_xml (PStr [43; 50; 48; 48]%N) = Ok (PInt 25400)
+  /\ lex_ok (LInt 0 158400) [43; 50; 48; 48]%N = true.
+Proof. vm_compute. repeat split. Qed.
+
+(** ---- percent literals: shapes of LPercent and of the transcribed pattern facets ---- *)
+Lemma slice_to_neg1 a c : py_slice_to_neg (PStr (a ++ [c])) 1 = Ok (PStr a).
+Proof. exact (slice_to_neg a [c]). Qed.
+
+Lemma strip_sign_split signed s : exists sg, s = sg ++ strip_sign signed s /\ (sg = [] \/ sg = [45%N]).
+Proof.
+  unfold strip_sign. destruct s as [|c r]; [exists []; auto|]. destruct signed; cbn [andb].
+  - change c_minus with 45%N. destruct (N.eqb_spec c 45) as [->|]; [exists [45%N]; auto|exists []; auto].
+  - exists []; auto.
+Qed.
+
+Lemma lex_percent_inv signed s : lex_ok (LPercent signed) s = true ->
+  exists sg body, s = (sg ++ body) ++ [37%N] /\ (sg = [] \/ sg = [45%N]) /\ dec_shape body.
+Proof.
+  cbn [lex_ok]. intros H. destruct (strip_sign_split signed s) as (sg & Es & Hsg).
+  destruct (rev (strip_sign signed s)) as [|c body'] eqn:Er; [discriminate H|].
+  apply andb_true_iff in H as [Hc Hd]. apply N.eqb_eq in Hc. subst c.
+  exists sg, (rev body'). split; [|split; [exact Hsg|apply lex_decimal_shape; exact Hd]].
+  rewrite Es at 1. rewrite <- app_assoc. f_equal.
+  apply (f_equal (@rev N)) in Er. rewrite rev_involutive in Er. rewrite Er. reflexivity.
+Qed.
+
+Lemma all_digits_of ds : forallb is_digit ds = true -> ds <> [] -> all_digits ds = true.
+Proof. destruct ds; [contradiction|]. intros H _. exact H. Qed.
+
+Lemma re_all_digits r s : re_den r s -> re_within 48 57 r = true -> nullable r = false -> all_digits s = true.
+Proof. intros H W N. apply all_digits_of; [eapply re_digits_den; eauto|eapply re_nonnull_den; eauto]. Qed.
+
+(** 0*( one to three or four digits )%  : digits and a percent sign *)
+Lemma chart_pct_shape k top s :
+  re_within 48 57 (re_chart_pct_body k top) = true -> nullable (re_chart_pct_body k top) = false ->
+  re_matches (re_chart_pct k top) s = true -> exists ds, s = ([] ++ ds) ++ [37%N] /\ all_digits ds = true.
+Proof.
+  intros W N H. apply re_matches_den in H. unfold re_chart_pct in H.
+  destruct (inv_cat _ _ _ H) as (a & p & -> & Ha & Hp). apply rch_den in Hp. subst p.
+  exists a. split; [reflexivity|]. eapply re_all_digits; eauto.
+Qed.
+
+(** the same with an optional minus sign in front ( c:overlap ) *)
+Lemma overlap_shape s : re_matches re_overlap s = true ->
+  exists sg ds, s = (sg ++ ds) ++ [37%N] /\ (sg = [] \/ sg = [45%N]) /\ all_digits ds = true.
+Proof.
+  intros H. apply re_matches_den in H. unfold re_overlap in H.
+  destruct (inv_cat _ _ _ H) as (a & p & -> & Ha & Hp). apply rch_den in Hp. subst p.
+  unfold re_overlap_body in Ha. destruct (inv_cat _ _ _ Ha) as (sg & ds & -> & Hsg & Hds).
+  exists sg, ds. split; [reflexivity|]. split.
+  - apply ropt_den in Hsg as [->|Hsg]; [now left|]. apply rch_den in Hsg. now right.
+  - eapply re_all_digits; [exact Hds|reflexivity|reflexivity].
+Qed.
+
+(** ((100)|([0-9][0-9]?))(\.[0-9][0-9]?)?%  : an unsigned decimal and a percent sign *)
+Lemma fixedpct_shape s : re_matches re_fixedpct s = true ->
+  exists body, s = ([] ++ body) ++ [37%N] /\ dec_shape body.
+Proof.
+  intros H. apply re_matches_den in H. unfold re_fixedpct in H.
+  destruct (inv_cat _ _ _ H) as (a & t & -> & Ha & Ht).
+  destruct (inv_cat _ _ _ Ht) as (f & p & -> & Hf & Hp). apply rch_den in Hp. subst p.
+  assert (Da : all_digits a = true) by (eapply re_all_digits; [exact Ha|reflexivity|reflexivity]).
+  exists (a ++ f). split; [cbn [app]; now rewrite app_assoc|].
+  exists a. split; [exact Da|]. unfold re_fixedpct_frac in Hf.
+  apply ropt_den in Hf as [->|Hf]; [left; apply app_nil_r|right].
+  destruct (inv_cat _ _ _ Hf) as (d & x & -> & Hd & Hx). apply rch_den in Hd. subst d.
+  exists x. split; [|reflexivity]. eapply re_all_digits; [exact Hx|reflexivity|reflexivity].
+Qed.
+
+Lemma sign_digits_free c sg ds : (sg = [] \/ sg = [45%N]) -> all_digits ds = true ->
+  is_digit c = false -> c <> 45%N -> existsb (N.eqb c) (sg ++ ds) = false.
+Proof.
+  intros Hsg A Hd H45. rewrite existsb_app, (existsb_digits_false c ds Hd (all_digits_forallb _ A)), orb_false_r.
+  destruct Hsg as [->| ->]; cbn [existsb]; [reflexivity|]. rewrite orb_false_r. now apply N.eqb_neq.
+Qed.
+
+(** int( s.replace( percent sign, empty ) ) on sign, digits, percent sign *)
+Lemma chart_literal_int sg ds : (sg = [] \/ sg = [45%N]) -> all_digits ds = true ->
+  (N.of_nat (length ((sg ++ ds) ++ [37%N])) <= int_max_str_digits)%N ->
+  exists z, (v <- py_replace1 (PStr ((sg ++ ds) ++ [37%N])) (PStr [37%N]) (PStr []) ;; py_int v) = Ok (PInt z).
+Proof.
+  intros Hsg A L. rewrite replace1_snoc by (apply sign_digits_free; auto; discriminate). cbn [bind].
+  apply py_int_signed_digits; auto. rewrite app_length in L. lia.
+Qed.
+
+(** float( s[:-1] ) on sign, decimal, percent sign *)
+Lemma pct_literal_float sg body : (sg = [] \/ sg = [45%N]) -> dec_shape body ->
+  exists f, (v <- py_slice_to_neg (PStr ((sg ++ body) ++ [37%N])) 1 ;; py_float v) = Ok (PFloat f).
+Proof.
+  intros Hsg Hb. rewrite slice_to_neg1. cbn [bind py_float].
+  destruct (f_of_str_decimal sg body Hsg Hb) as (f & -> & _). cbn [bind]. eauto.
+Qed.
+
+Lemma pct_literal_div sg body m e : (sg = [] \/ sg = [45%N]) -> dec_shape body -> m <> 0 ->
+  exists r, (v <- py_slice_to_neg (PStr ((sg ++ body) ++ [37%N])) 1 ;;
+             (t <- py_float v ;; py_truediv t (PFloat (Fin m e)))) = Ok (PFloat r).
+Proof.
+  intros Hsg Hb Hm. rewrite slice_to_neg1. cbn [bind py_float].
+  destruct (f_of_str_decimal sg body Hsg Hb) as (f & -> & _). cbn [bind]. now apply truediv_float_float.
+Qed.
+
+Lemma int_div_float s z m e : lex_integer s = Some z -> (N.of_nat (length s) <= int_max_str_digits)%N ->
+  - big300 <= z <= big300 -> m <> 0 ->
+  exists r, (t <- py_int (PStr s) ;; py_truediv t (PFloat (Fin m e))) = Ok (PFloat r).
+Proof. intros H L B Hm. rewrite (py_int_lex s z H L). cbn [bind]. now apply truediv_int_float. Qed.
+
+Lemma union2_inv a b s : lex_ok (LUnion [a; b]) s = true -> lex_ok a s = true \/ lex_ok b s = true.
+Proof. rewrite lex_ok_union. cbn [existsb]. rewrite orb_false_r. apply orb_true_iff. Qed.
+
+(** ---- percent-or-integer readers of DrawingML ---- *)
+Definition int300 : lexspec := LInt (- big300) big300.
+
+Ltac not_pct := first [reflexivity | discriminate].
+
+(** R for ST_Percentage ( a:alpha/@val, a:srcRect/@l ... ): an integer literal ( thousandths of a
+    percent; up to 300 digits, beyond which int / float overflows ) or a percent literal *)
+Theorem R_Percentage : forall sgn s, lex_ok (LUnion [int300; LPercent sgn]) s = true ->
+  (N.of_nat (length s) <= int_max_str_digits)%N -> exists v, ST_Percentage__from_xml (PStr s) = Ok v.
+Proof.
+  intros sgn s H L. unfold ST_Percentage__from_xml, ST_Percentage__convert_from_xml. rewrite py_in_char.
+  apply union2_inv in H as [H|H].
+  - destruct (lex_int_inv _ _ _ H) as (z & Hz & B). rewrite (int_lit_free 37 s z Hz) by not_pct. cbn [bind].
+    destruct (int_div_float s z 100000 0 Hz L B ltac:(lia)) as [r ->]. eauto.
+  - destruct (lex_percent_inv _ _ H) as (sg & body & -> & Hsg & Hb). rewrite existsb_snoc. cbn [bind].
+    unfold ST_Percentage___convert_from_percent_literal.
+    destruct (pct_literal_div sg body 100 0 Hsg Hb ltac:(lia)) as [r ->]. eauto.
+Qed.
+
+(** R for ST_PositiveFixedPercentage ( a:gs/@pos ): integer literal, percent literal, or a string of
+    the pattern facet of s:ST_PositiveFixedPercentage *)
+Theorem R_PositiveFixedPercentage : forall sgn s,
+  lex_ok (LUnion [int300; LPercent sgn]) s = true \/ re_matches re_fixedpct s = true ->
+  (N.of_nat (length s) <= int_max_str_digits)%N -> exists v, ST_PositiveFixedPercentage__from_xml (PStr s) = Ok v.
+Proof.
+  intros sgn s H L. unfold ST_PositiveFixedPercentage__from_xml, ST_PositiveFixedPercentage__convert_from_xml.
+  rewrite py_in_char.
+  assert (P : forall sg body, (sg = [] \/ sg = [45%N]) -> dec_shape body ->
+     exists v, (t165 <- Ok (existsb (N.eqb 37) ((sg ++ body) ++ [37%N])) ;;
+        if t165 then ST_PositiveFixedPercentage___convert_from_percent_literal (PStr ((sg ++ body) ++ [37%N]))
+        else t167 <- py_int (PStr ((sg ++ body) ++ [37%N])) ;; py_truediv t167 (PFloat (Fin 100000 0))) = Ok v).
+  { intros sg body Hsg Hb. rewrite existsb_snoc. cbn [bind].
+    unfold ST_PositiveFixedPercentage___convert_from_percent_literal.
+    destruct (pct_literal_div sg body 100 0 Hsg Hb ltac:(lia)) as [r ->]. eauto. }
+  destruct H as [H|H]; [apply union2_inv in H as [H|H]|].
+  - destruct (lex_int_inv _ _ _ H) as (z & Hz & B). rewrite (int_lit_free 37 s z Hz) by not_pct. cbn [bind].
+    destruct (int_div_float s z 100000 0 Hz L B ltac:(lia)) as [r ->]. eauto.
+  - destruct (lex_percent_inv _ _ H) as (sg & body & -> & Hsg & Hb). now apply P.
+  - destruct (fixedpct_shape s H) as (body & -> & Hb). apply P; auto.
+Qed.
+
+Lemma endswith_pct s : as_bool (py_endswith (PStr s) (PStr [37%N])) = Ok (ends_with [37%N] s).
+Proof. reflexivity. Qed.
+
+(** R for ST_TextSpacingPercentOrPercentString ( a:spcPct/@val ) *)
+Theorem R_TextSpacingPercent : forall sgn s, lex_ok (LUnion [int300; LPercent sgn]) s = true ->
+  (N.of_nat (length s) <= int_max_str_digits)%N ->
+  exists v, ST_TextSpacingPercentOrPercentString__from_xml (PStr s) = Ok v.
+Proof.
+  intros sgn s H L.
+  unfold ST_TextSpacingPercentOrPercentString__from_xml, ST_TextSpacingPercentOrPercentString__convert_from_xml.
+  rewrite endswith_pct. apply union2_inv in H as [H|H].
+  - destruct (lex_int_inv _ _ _ H) as (z & Hz & B). rewrite (int_lit_not_ends 37 s z Hz eq_refl). cbn [bind].
+    destruct (int_div_float s z 100000 0 Hz L B ltac:(lia)) as [r ->]. eauto.
+  - destruct (lex_percent_inv _ _ H) as (sg & body & -> & Hsg & Hb). rewrite ends_with_snoc. cbn [bind].
+    unfold ST_TextSpacingPercentOrPercentString___convert_from_percent_literal.
+    rewrite slice_to_neg1. cbn [bind py_float].
+    destruct (f_of_str_decimal sg body Hsg Hb) as (f & -> & _). cbn [bind].
+    destruct (truediv_float_float f 100 0 ltac:(lia)) as [r ->]. cbn [bind]. eauto.
+Qed.
+
+(** R for ST_TextFontScalePercentOrPercentString ( a:normAutofit/@fontScale ) *)
+Theorem R_TextFontScalePercent : forall sgn s, lex_ok (LUnion [int300; LPercent sgn]) s = true ->
+  (N.of_nat (length s) <= int_max_str_digits)%N ->
+  exists v, ST_TextFontScalePercentOrPercentString__from_xml (PStr s) = Ok v.
+Proof.
+  intros sgn s H L.
+  unfold ST_TextFontScalePercentOrPercentString__from_xml, ST_TextFontScalePercentOrPercentString__convert_from_xml.
+  rewrite endswith_pct. apply union2_inv in H as [H|H].
+  - destruct (lex_int_inv _ _ _ H) as (z & Hz & B). rewrite (int_lit_not_ends 37 s z Hz eq_refl). cbn [bind].
+    destruct (int_div_float s z 1000 0 Hz L B ltac:(lia)) as [r ->]. eauto.
+  - destruct (lex_percent_inv _ _ H) as (sg & body & -> & Hsg & Hb). rewrite ends_with_snoc. cbn [bind].
+    destruct (pct_literal_float sg body Hsg Hb) as [f ->]. eauto.
+Qed.
+
+(** the 300-digit bound on the integer form is necessary: int / float overflows beyond the doubles *)
+Theorem R_Percentage_big_int_refuted : exists s, lex_ok (LInt (- 10 ^ 400) (10 ^ 400)) s = true
+  /\ (N.of_nat (length s) <= int_max_str_digits)%N /\ ST_Percentage__from_xml (PStr s) = Err OverflowErr.
+Proof. exists (49%N :: repeat 48%N 310). vm_compute. repeat split; discriminate. Qed.
+
+Example R_percent_examples :
+  lex_ok (LUnion [int300; LPercent true]) [45; 49; 50; 46; 53; 37]%N = true
+  /\ ST_Percentage__from_xml (PStr [45; 49; 50; 46; 53; 37]%N) = Ok (PFloat (Fin (-4503599627370496) (-55)))
+  /\ ST_TextFontScalePercentOrPercentString__from_xml (PStr [45; 49; 50; 46; 53; 37]%N) = Ok (PFloat (Fin (-7036874417766400) (-49)))
+  /\ re_matches re_fixedpct [49; 48; 48; 46; 57; 57; 37]%N = true
+  /\ lex_ok (LUnion [int300; LPercent true]) [43; 53]%N = true
+  /\ ST_PositiveFixedPercentage__from_xml (PStr [43; 53]%N) = Ok (PFloat (Fin 7378697629483821 (-67))).
+Proof. vm_compute. repeat split. Qed.
+
+(** ---- chart percent readers: the percent sign is dropped and the rest read as an integer ---- *)
+Lemma chart_in_reader lit s :
+  (forall sg ds, (sg = [] \/ sg = [45%N]) -> all_digits ds = true ->
+     lit (PStr ((sg ++ ds) ++ [37%N])) = (v <- py_replace1 (PStr ((sg ++ ds) ++ [37%N])) (PStr [37%N]) (PStr []) ;; py_int v)) ->
+  (N.of_nat (length s) <= int_max_str_digits)%N ->
+  ((exists z, lex_integer s = Some z) \/
+   (exists sg ds, s = (sg ++ ds) ++ [37%N] /\ (sg = [] \/ sg = [45%N]) /\ all_digits ds = true)) ->
+  exists v, (t <- py_in (PStr [37%N]) (PStr s) ;; if t then lit (PStr s) else py_int (PStr s)) = Ok v.
+Proof.
+  intros Hlit L [[z Hz]|(sg & ds & -> & Hsg & A)]; rewrite py_in_char.
+  - rewrite (int_lit_free 37 s z Hz) by not_pct. cbn [bind]. rewrite (py_int_lex s z Hz L). eauto.
+  - rewrite existsb_snoc. cbn [bind]. rewrite (Hlit sg ds Hsg A).
+    destruct (chart_literal_int sg ds Hsg A L) as [z ->]. eauto.
+Qed.
+
+Lemma chart_shape_of lo hi k top s :
+  re_within 48 57 (re_chart_pct_body k top) = true -> nullable (re_chart_pct_body k top) = false ->
+  lex_ok (LInt lo hi) s = true \/ re_matches (re_chart_pct k top) s = true ->
+  (exists z, lex_integer s = Some z) \/
+  (exists sg ds, s = (sg ++ ds) ++ [37%N] /\ (sg = [] \/ sg = [45%N]) /\ all_digits ds = true).
+Proof.
+  intros W N [H|H].
+  - left. destruct (lex_int_inv _ _ _ H) as (z & Hz & _). eauto.
+  - right. destruct (chart_pct_shape k top s W N H) as (ds & -> & A). exists [], ds. auto.
+Qed.
+
+(** R for ST_BubbleScale ( c:bubbleScale/@val ): integer literal or a string of the pattern facet *)
+Theorem R_BubbleScale : forall lo hi s, lex_ok (LInt lo hi) s = true \/ re_matches re_bubble s = true ->
+  (N.of_nat (length s) <= int_max_str_digits)%N -> exists v, ST_BubbleScale__from_xml (PStr s) = Ok v.
+Proof.
+  intros lo hi s H L. unfold ST_BubbleScale__from_xml, ST_BubbleScale__convert_from_xml.
+  apply (chart_in_reader ST_BubbleScale__convert_from_percent_literal s); [reflexivity|exact L|].
+  eapply chart_shape_of; [| |exact H]; reflexivity.
+Qed.
+
+Theorem R_GapAmount : forall lo hi s, lex_ok (LInt lo hi) s = true \/ re_matches re_gap s = true ->
+  (N.of_nat (length s) <= int_max_str_digits)%N -> exists v, ST_GapAmount__from_xml (PStr s) = Ok v.
+Proof.
+  intros lo hi s H L. unfold ST_GapAmount__from_xml, ST_GapAmount__convert_from_xml.
+  apply (chart_in_reader ST_GapAmount__convert_from_percent_literal s); [reflexivity|exact L|].
+  eapply chart_shape_of; [| |exact H]; reflexivity.
+Qed.
+
+Theorem R_Overlap : forall lo hi s, lex_ok (LInt lo hi) s = true \/ re_matches re_overlap s = true ->
+  (N.of_nat (length s) <= int_max_str_digits)%N -> exists v, ST_Overlap__from_xml (PStr s) = Ok v.
+Proof.
+  intros lo hi s H L. unfold ST_Overlap__from_xml, ST_Overlap__convert_from_xml.
+  apply (chart_in_reader ST_Overlap__convert_from_percent_literal s); [reflexivity|exact L|].
+  destruct H as [H|H].
+  - left. destruct (lex_int_inv _ _ _ H) as (z & Hz & _). eauto.
+  - right. exact (overlap_shape s H).
+Qed.
+
+(** ST_LblOffset ( c:lblOffset/@val ) tests the END of the string for the percent sign *)
+Theorem R_LblOffset : forall lo hi s, lex_ok (LInt lo hi) s = true \/ re_matches re_lbloff s = true ->
+  (N.of_nat (length s) <= int_max_str_digits)%N -> exists v, ST_LblOffset__from_xml (PStr s) = Ok v.
+Proof.
+  intros lo hi s H L. unfold ST_LblOffset__from_xml, ST_LblOffset__convert_from_xml. rewrite endswith_pct.
+  destruct (chart_shape_of lo hi 57 [49; 48; 48; 48]%N s eq_refl eq_refl H) as [[z Hz]|(sg & ds & -> & Hsg & A)].
+  - rewrite (int_lit_not_ends 37 s z Hz eq_refl). cbn [bind]. rewrite (py_int_lex s z Hz L). eauto.
+  - rewrite ends_with_snoc. cbn [bind]. unfold ST_LblOffset__convert_from_percent_literal.
+    destruct (chart_literal_int sg ds Hsg A L) as [z ->]. eauto.
+Qed.
+
+Example R_chart_examples :
+  re_matches re_bubble [48; 48; 48; 53; 37]%N = true
+  /\ ST_BubbleScale__from_xml (PStr [48; 48; 48; 53; 37]%N) = Ok (PInt 5)
+  /\ re_matches re_overlap [45; 48; 48; 49; 48; 48; 37]%N = true
+  /\ ST_Overlap__from_xml (PStr [45; 48; 48; 49; 48; 48; 37]%N) = Ok (PInt (-100))
+  /\ re_matches re_lbloff [49; 48; 48; 48; 37]%N = true
+  /\ ST_LblOffset__from_xml (PStr [49; 48; 48; 48; 37]%N) = Ok (PInt 1000)
+  /\ re_matches re_gap [53; 48; 48; 37]%N = true
+  /\ ST_GapAmount__from_xml (PStr [53; 48; 48; 37]%N) = Ok (PInt 500).
+Proof. vm_compute. repeat split. Qed.
+
+(** ---- correctly rounded decimal to float conversion stays finite on short literals ---- *)
+Lemma dstep_fold_lt ds : forall acc, forallb is_digit ds = true ->
+  (fold_left dstep ds acc < (acc + 1) * 10 ^ N.of_nat (length ds))%N.
+Proof.
+  induction ds as [|c r IH]; intros acc H.
+  - cbn [fold_left length]. change (10 ^ N.of_nat 0)%N with 1%N. lia.
+  - cbn [forallb] in H. apply andb_true_iff in H as [Hc Hr]. apply is_digit_bounds in Hc.
+    cbn [fold_left length]. specialize (IH (dstep acc c) Hr). rewrite Nat2N.inj_succ, N.pow_succ_r'.
+    eapply N.lt_le_trans; [exact IH|]. unfold dstep.
+    replace ((acc + 1) * (10 * 10 ^ N.of_nat (length r)))%N with ((acc * 10 + 10) * 10 ^ N.of_nat (length r))%N by lia.
+    apply N.mul_le_mono_r. lia.
+Qed.
+
+Lemma dec_value_lt ds : forallb is_digit ds = true -> Z.of_N (dec_value ds) < 10 ^ Z.of_nat (length ds).
+Proof.
+  intros H. rewrite dec_value_fold. pose proof (dstep_fold_lt ds 0%N H) as L.
+  rewrite N.mul_1_l in L. apply N2Z.inj_lt in L. rewrite N2Z.inj_pow in L.
+  rewrite nat_N_Z in L. exact L.
+Qed.
+
+Lemma fl_div_e_opp n d k : 0 < n -> fl_div_e (- n) d k = f_neg (fl_div_e n d k).
+Proof.
+  intros Hn. unfold fl_div_e. destruct (d <=? 0); [reflexivity|].
+  destruct (Z.eqb_spec n 0); [lia|]. destruct (Z.eqb_spec (- n) 0); [lia|].
+  rewrite Z.abs_opp. destruct (Z.ltb_spec (- n) 0); [|lia]. destruct (Z.ltb_spec n 0); [lia|].
+  destruct (0 <=? Z.log2 d - Z.log2 (Z.abs n) + 55);
+  match goal with |- context [Z.div_eucl ?a ?b] => destruct (Z.div_eucl a b) end; apply round_dy_opp.
+Qed.
+
+(** the correctly rounded quotient of positive integers is between 0 and the rounding of twice any integer bound of the quotient *)
+Lemma fl_div_bound n d B : 0 < n -> 0 < d -> 0 < B -> n <= B * d ->
+  f_leb (fl_div_e n d 0) (round_dy (2 * B) 0) = true /\ f_leb (Fin 0 0) (fl_div_e n d 0) = true.
+Proof.
+  intros Hn Hd HB Hq. unfold fl_div_e.
+  destruct (Z.leb_spec d 0); [lia|]. destruct (Z.eqb_spec n 0); [lia|].
+  rewrite (Z.abs_eq n) by lia. destruct (Z.ltb_spec n 0); [lia|].
+  remember (Z.log2 d - Z.log2 n + 55) as s eqn:Hs.
+  destruct (Z.leb_spec 0 s) as [S0|S0].
+  - destruct (Z.div_eucl (Z.shiftl n s) d) as [q r] eqn:E.
+    pose proof (Z_div_mod (Z.shiftl n s) d ltac:(lia)) as DM. rewrite E in DM. destruct DM as [EQ RB].
+    rewrite Z.shiftl_mul_pow2 in EQ by lia.
+    assert (P := pow2_pos s S0).
+    assert (Q0 : 0 <= q) by nia.
+    assert (QB : q <= B * 2 ^ s) by nia.
+    set (m := 2 * q + (if r =? 0 then 0 else 1)).
+    assert (M0 : 0 <= m) by (unfold m; destruct (r =? 0); lia).
+    assert (M1 : m <= 2 * q + 1) by (unfold m; destruct (r =? 0); lia).
+    split; [|apply round_dy_nonneg; exact M0].
+    apply round_dy_mono. rewrite (fin_leb_scale m (0 - s - 1) (2 * B) 0 (0 - s - 1)) by lia.
+    apply Z.leb_le. replace (0 - s - 1 - (0 - s - 1)) with 0 by lia.
+    replace (0 - (0 - s - 1)) with (s + 1) by lia. rewrite Z.pow_add_r by lia.
+    change (2 ^ 0) with 1. change (2 ^ 1) with 2. nia.
+  - destruct (Z.div_eucl n (Z.shiftl d (- s))) as [q r] eqn:E.
+    assert (T0 : 0 < - s) by lia.
+    assert (P := pow2_pos (- s - 1) ltac:(lia)).
+    assert (PT : 2 ^ (- s) = 2 * 2 ^ (- s - 1)).
+    { replace (- s) with (1 + (- s - 1)) at 1 by lia. rewrite Z.pow_add_r by lia. reflexivity. }
+    rewrite Z.shiftl_mul_pow2 in E by lia.
+    pose proof (Z_div_mod n (d * 2 ^ (- s)) ltac:(nia)) as DM. rewrite E in DM. destruct DM as [EQ RB].
+    (* the quotient is at least one *)
+    assert (Big : d * 2 ^ (- s) <= n).
+    { pose proof (log2_bounds n Hn) as [Ln _]. pose proof (log2_bounds d Hd) as [_ Ld].
+      assert (L0 : 0 <= Z.log2 d) by apply Z.log2_nonneg.
+      assert (E2 : 2 ^ (Z.log2 d + 1) * 2 ^ (- s) <= 2 ^ Z.log2 n).
+      { rewrite <- Z.pow_add_r by lia. apply Z.pow_le_mono_r; lia. }
+      nia. }
+    assert (Q1 : 1 <= q) by nia.
+    assert (QB : q * 2 ^ (- s) <= B) by nia.
+    set (m := 2 * q + (if r =? 0 then 0 else 1)).
+    assert (M0 : 0 <= m) by (unfold m; destruct (r =? 0); lia).
+    assert (M1 : m <= 2 * q + 1) by (unfold m; destruct (r =? 0); lia).
+    split; [|apply round_dy_nonneg; exact M0].
+    apply round_dy_mono. rewrite (fin_leb_scale m (0 - s - 1) (2 * B) 0 0) by lia.
+    apply Z.leb_le. replace (0 - s - 1 - 0) with (- s - 1) by lia. change (2 ^ (0 - 0)) with 1. nia.
+Qed.
+
+Definition um_top : pyfloat := round_dy (2 * big300) 0.
+
+Lemma between_finite F lo hi : f_leb (Fin 0 0) F = true -> f_leb F (Fin lo hi) = true -> exists m e, F = Fin m e /\ 0 <= m.
+Proof.
+  destruct F as [m e| | |]; intros H0 H1; try discriminate.
+  exists m, e. split; [reflexivity|].
+  rewrite (fin_leb_scale 0 0 m e (Z.min 0 e)) in H0 by lia. apply Z.leb_le in H0.
+  assert (P := pow2_pos (e - Z.min 0 e) ltac:(lia)). nia.
+Qed.
+
+(** float of at most 300 digits scaled down by a power of ten: finite, magnitude at most 2e300 *)
+Lemma dec_to_float_bounded neg ds x : forallb is_digit ds = true -> x <= 0 -> (length ds <= 300)%nat ->
+  exists m e, 0 <= m /\ f_leb (Fin m e) um_top = true
+    /\ dec_to_float neg ds x = (if neg then Fin (- m) e else Fin m e).
+Proof.
+  intros Hd Hx Hl. unfold dec_to_float.
+  assert (Z0 : exists m e, 0 <= m /\ f_leb (Fin m e) um_top = true /\ Fin 0 0 = (if neg then Fin (- m) e else Fin m e)).
+  { exists 0, 0. split; [lia|]. split; [reflexivity|]. destruct neg; reflexivity. }
+  pose proof (dec_value_lt ds Hd) as DL. set (D := Z.of_N (dec_value ds)) in *.
+  destruct (Z.eqb_spec D 0) as [|Dn]; [exact Z0|].
+  destruct (Z.ltb_spec 310 x); [lia|].
+  destruct (x + Z.of_nat (length ds) <? -330); [exact Z0|].
+  assert (D0 : 0 < D) by (unfold D in *; lia).
+  assert (DB : D <= big300).
+  { unfold big300. apply Z.lt_le_incl. eapply Z.lt_le_trans; [exact DL|]. apply Z.pow_le_mono_r; lia. }
+  assert (G : forall n d, 0 < n -> 0 < d -> n <= big300 * d ->
+     exists m e, 0 <= m /\ f_leb (Fin m e) um_top = true
+       /\ fl_div (if neg then - n else n) d = (if neg then Fin (- m) e else Fin m e)).
+  { intros n d Hn Hd0 Hb. destruct (fl_div_bound n d big300 Hn Hd0 ltac:(reflexivity) Hb) as [U L].
+    fold um_top in U. assert (Uf : exists a b, um_top = Fin a b) by (vm_compute; eauto).
+    destruct Uf as (a & b & Ea). rewrite Ea in U.
+    destruct (between_finite _ _ _ L U) as (m & e & Em & M0).
+    exists m, e. split; [exact M0|]. split; [rewrite <- Em, Ea; exact U|].
+    unfold fl_div. destruct neg; [rewrite fl_div_e_opp by exact Hn|]; rewrite Em; reflexivity. }
+  destruct (Z.leb_spec 0 x).
+  - replace x with 0 by lia. change (10 ^ 0) with 1.
+    replace ((if neg then - D else D) * 1) with (if neg then - D else D) by (destruct neg; lia).
+    apply G; lia.
+  - apply G; [exact D0|apply Z.pow_pos_nonneg; lia|].
+    assert (0 < 10 ^ (- x)) by (apply Z.pow_pos_nonneg; lia).
+    assert (0 < big300) by reflexivity. nia.
+Qed.
+
+Lemma f_round_fin m e : exists z, f_round (Fin m e) = Ok z.
+Proof. cbn [f_round]. destruct (0 <=? e); eauto. Qed.
+
+(** round( float * multiplier ) succeeds for the six unit multipliers *)
+Lemma um_mul_round (neg : bool) (m e c : Z) : 0 <= m -> f_leb (Fin m e) um_top = true ->
+  In c [36000; 360000; 914400; 12700; 152400] ->
+  exists z, (t <- py_mul (PFloat (if neg then Fin (- m) e else Fin m e)) (PInt c) ;; py_round t) = Ok (PInt z).
+Proof.
+  intros M0 U Hc.
+  assert (C : 0 < c /\ f_of_Z c = Ok (Fin c 0) /\ exists a b, f_mul um_top (Fin c 0) = Fin a b).
+  { cbn [In] in Hc. destruct Hc as [<-|[<-|[<-|[<-|[<-|[]]]]]]; (split; [lia|]); (split; [reflexivity|]); vm_compute; eauto. }
+  destruct C as (C0 & Cf & a & b & Ct).
+  assert (Uf : exists a b, um_top = Fin a b) by (vm_compute; eauto).
+  destruct Uf as (ua & ub & Eu).
+  assert (P : f_leb (f_mul (Fin m e) (Fin c 0)) (Fin a b) = true).
+  { rewrite <- Ct. apply f_mul_mono_l; [reflexivity|rewrite Eu; reflexivity|exact C0|exact U]. }
+  cbn [f_mul] in P.
+  assert (N0 : f_leb (Fin 0 0) (round_dy (m * c) (e + 0)) = true) by (apply round_dy_nonneg; nia).
+  destruct (between_finite _ _ _ N0 P) as (m' & e' & Em & _).
+  unfold py_mul, arith. destruct neg; cbn [as_num num_float bind]; rewrite Cf; cbn [bind f_mul py_round].
+  - replace (- m * c) with (- (m * c)) by lia. rewrite round_dy_opp, Em. cbn [f_neg].
+    destruct (f_round_fin (- m') e') as [z ->]. cbn [bind]. eauto.
+  - rewrite Em. destruct (f_round_fin m' e') as [z ->]. cbn [bind]. eauto.
+Qed.
+
+(** ---- universal measures: ST_UniversalMeasure, ST_Coordinate, ST_Coordinate32 ---- *)
+Lemma lex_um_inv signed s : lex_ok (LUnivMeasure signed) s = true ->
+  exists sg body u, s = (sg ++ body) ++ u /\ (sg = [] \/ sg = [45%N]) /\ dec_shape body /\ In u units.
+Proof.
+  cbn [lex_ok]. intros H. destruct (strip_sign_split signed s) as (sg & Es & Hsg).
+  set (b := strip_sign signed s) in *. apply andb_true_iff in H as [Hu Hd].
+  exists sg, (firstn (length b - 2) b), (skipn (length b - 2) b).
+  split; [rewrite <- app_assoc, firstn_skipn; exact Es|]. split; [exact Hsg|].
+  split; [apply lex_decimal_shape; exact Hd|apply mem_str_In; exact Hu].
+Qed.
+
+Definition has_imp (s : str) : bool :=
+  existsb (N.eqb 105) s || (existsb (N.eqb 109) s || existsb (N.eqb 112) s).
+
+Lemma imp_test s :
+  (t53 <- py_in (PStr [105%N]) (PStr s) ;; if t53 then Ok true
+   else (t52 <- py_in (PStr [109%N]) (PStr s) ;; if t52 then Ok true else py_in (PStr [112%N]) (PStr s)))
+  = Ok (has_imp s).
+Proof.
+  rewrite !py_in_char. cbn [bind]. unfold has_imp. destruct (existsb (N.eqb 105) s); [reflexivity|].
+  cbn [bind orb]. destruct (existsb (N.eqb 109) s); reflexivity.
+Qed.
+
+Lemma has_imp_app a u : has_imp u = true -> has_imp (a ++ u) = true.
+Proof.
+  unfold has_imp. rewrite !existsb_app. intros H.
+  destruct (existsb (N.eqb 105) u); [now rewrite orb_true_r|].
+  destruct (existsb (N.eqb 109) u); [rewrite !orb_true_r; reflexivity|].
+  cbn [orb] in H. rewrite H, !orb_true_r. reflexivity.
+Qed.
+
+Lemma int_lit_no_imp s z : lex_integer s = Some z -> has_imp s = false.
+Proof. intros H. unfold has_imp. now rewrite !(int_lit_free _ s z H) by not_pct. Qed.
+
+Lemma um_units u : In u units ->
+  length u = 2%nat /\ has_imp u = true /\ exists c,
+    py_dict_get [((PStr [109; 109]%N), (PInt (36000))); ((PStr [99; 109]%N), (PInt (360000))); ((PStr [105; 110]%N), (PInt (914400))); ((PStr [112; 116]%N), (PInt (12700))); ((PStr [112; 99]%N), (PInt (152400))); ((PStr [112; 105]%N), (PInt (152400)))] (PStr u) = Ok (PInt c)
+    /\ In c [36000; 360000; 914400; 12700; 152400].
+Proof.
+  unfold units. cbn [In]. intros [<-|[<-|[<-|[<-|[<-|[<-|[]]]]]]]; (split; [reflexivity|]); (split; [reflexivity|]);
+    eexists; (split; [vm_compute; reflexivity|]); cbn [In]; tauto.
+Qed.
+
+Definition um_max_len : N := 300.
+
+Lemma um_read sg body u : (sg = [] \/ sg = [45%N]) -> dec_shape body -> In u units ->
+  (N.of_nat (length ((sg ++ body) ++ u)) <= um_max_len)%N ->
+  exists v, ST_UniversalMeasure__convert_from_xml (PStr ((sg ++ body) ++ u)) = Ok v.
+Proof.
+  intros Hsg Hb Hu L. destruct (um_units u Hu) as (Lu & _ & c & Hd & Hc).
+  unfold ST_UniversalMeasure__convert_from_xml. rewrite <- Lu. rewrite slice_to_neg, slice_from_neg.
+  cbn [bind py_float]. destruct (f_of_str_decimal_form sg body Hsg Hb) as (ds & x & -> & Fd & X0 & Ld).
+  cbn [bind]. rewrite Hd. cbn [bind].
+  assert (L300 : (length ds <= 300)%nat).
+  { rewrite !app_length in L. unfold um_max_len in L. lia. }
+  destruct (dec_to_float_bounded (str_eqb sg [45%N]) ds x Fd X0 L300) as (m & e & M0 & U & ->).
+  destruct (um_mul_round (str_eqb sg [45%N]) m e c M0 U Hc) as [z Hz]. rewrite Hz.
+  cbn [bind py_int py_Emu]. eauto.
+Qed.
+
+(** R for ST_UniversalMeasure: every universal-measure string of at most 300 characters is read *)
+Theorem R_UniversalMeasure : forall sgn s, lex_ok (LUnivMeasure sgn) s = true ->
+  (N.of_nat (length s) <= um_max_len)%N -> exists v, ST_UniversalMeasure__from_xml (PStr s) = Ok v.
+Proof.
+  intros sgn s H L. destruct (lex_um_inv sgn s H) as (sg & body & u & -> & Hsg & Hb & Hu).
+  unfold ST_UniversalMeasure__from_xml. now apply um_read.
+Qed.
+
+Lemma coordinate_read rd s lo hi sgn :
+  (forall s, rd (PStr s) = (t <- py_int (PStr s) ;; py_Emu t)) ->
+  lex_ok (LUnion [LInt lo hi; LUnivMeasure sgn]) s = true -> (N.of_nat (length s) <= um_max_len)%N ->
+  exists v, (t51 <- (t53 <- py_in (PStr [105%N]) (PStr s) ;; if t53 then Ok true
+                     else (t52 <- py_in (PStr [109%N]) (PStr s) ;; if t52 then Ok true else py_in (PStr [112%N]) (PStr s))) ;;
+             if t51 then ST_UniversalMeasure__convert_from_xml (PStr s) else rd (PStr s)) = Ok v.
+Proof.
+  intros Hrd H L. rewrite imp_test. cbn [bind]. apply union2_inv in H as [H|H].
+  - destruct (lex_int_inv _ _ _ H) as (z & Hz & _). rewrite (int_lit_no_imp s z Hz), Hrd.
+    rewrite (py_int_lex s z Hz) by (unfold um_max_len, int_max_str_digits in *; lia).
+    cbn [bind py_Emu py_int]. eauto.
+  - destruct (lex_um_inv sgn s H) as (sg & body & u & -> & Hsg & Hb & Hu).
+    destruct (um_units u Hu) as (_ & Hi & _). rewrite (has_imp_app _ u Hi). now apply um_read.
+Qed.
+
+(** R for ST_Coordinate ( a:off/@x, a:ext/@cx, a:gridCol/@w ... ): integer literal or universal measure *)
+Theorem R_Coordinate : forall lo hi sgn s, lex_ok (LUnion [LInt lo hi; LUnivMeasure sgn]) s = true ->
+  (N.of_nat (length s) <= um_max_len)%N -> exists v, ST_Coordinate__from_xml (PStr s) = Ok v.
+Proof.
+  intros lo hi sgn s H L. unfold ST_Coordinate__from_xml, ST_Coordinate__convert_from_xml.
+  exact (coordinate_read (fun v => t <- py_int v ;; py_Emu t) s lo hi sgn (fun _ => eq_refl) H L).
+Qed.
+
+Theorem R_Coordinate32 : forall lo hi sgn s, lex_ok (LUnion [LInt lo hi; LUnivMeasure sgn]) s = true ->
+  (N.of_nat (length s) <= um_max_len)%N -> exists v, ST_Coordinate32__from_xml (PStr s) = Ok v.
+Proof.
+  intros lo hi sgn s H L. unfold ST_Coordinate32__from_xml, ST_Coordinate32__convert_from_xml.
+  exact (coordinate_read ST_Coordinate32Unqualified__convert_from_xml s lo hi sgn (fun _ => eq_refl) H L).
+Qed.
+
+(** REFUTED for the type of a:pt/@x, a:pt/@y ( ST_AdjCoordinate = ST_Coordinate or a guide name ):
+    the guide name x is schema-valid there and ST_Coordinate cannot read it *)
+Theorem R_Coordinate_refuted : exists s,
+  lex_ok (LUnion [LUnion [LInt (-27273042329600) 27273042316900; LUnivMeasure true]; LString]) s = true
+  /\ ST_Coordinate__from_xml (PStr s) = Err ValueErr.
+Proof. exists [120%N]. vm_compute. split; reflexivity. Qed.
+
+(** the length bound on universal measures is necessary: the float overflows inside round *)
+Theorem R_Coordinate_long_measure_refuted : exists s, lex_ok (LUnivMeasure true) s = true
+  /\ (N.of_nat (length s) <= int_max_str_digits)%N
+  /\ ST_Coordinate__from_xml (PStr s) = Err OverflowErr /\ ST_Coordinate32__from_xml (PStr s) = Err OverflowErr.
+Proof. exists (repeat 57%N 310 ++ [109; 109]%N). vm_compute. repeat split; discriminate. Qed.
+
+Example R_coordinate_examples :
+  lex_ok (LUnivMeasure true) [45; 49; 46; 53; 112; 116]%N = true
+  /\ ST_Coordinate__from_xml (PStr [45; 49; 46; 53; 112; 116]%N) = Ok (PInt (-19050))
+  /\ ST_Coordinate32__from_xml (PStr [45; 49; 46; 53; 112; 105]%N) = Ok (PInt (-228600))
+  /\ ST_Coordinate__from_xml (PStr [43; 57; 49; 52; 52; 48; 48]%N) = Ok (PInt 914400).
+Proof. vm_compute. repeat split. Qed.
+
+(** ---- xsd:double literals: XsdDouble, ST_AxisUnit ---- *)
+(** the characters of a numeric xsd:double literal: digits, signs, point, E, e *)
+Definition dchar (c : N) : bool :=
+  (is_digit c || (c =? 43) || (c =? 45) || (c =? 46) || (c =? 69) || (c =? 101))%N.
+
+Lemma dchar_facts c : dchar c = true -> is_pyspace c = false /\ (c =? c_us)%N = false.
+Proof. unfold dchar, is_pyspace, is_digit, c_us. intros H. split; lia. Qed.
+
+Lemma drop_while_nohead {A} (f : A -> bool) l : forallb (fun x => negb (f x)) l = true -> drop_while f l = l.
+Proof.
+  destruct l as [|x l]; [reflexivity|]. cbn [forallb drop_while]. intros H.
+  apply andb_true_iff in H as [H _]. apply negb_true_iff in H. now rewrite H.
+Qed.
+
+Lemma forallb_impl {A} (f g : A -> bool) l : (forall x, f x = true -> g x = true) ->
+  forallb f l = true -> forallb g l = true.
+Proof. intros I. rewrite !forallb_forall. auto. Qed.
+
+Lemma py_strip_dchars s : forallb dchar s = true -> py_strip s = s.
+Proof.
+  intros H. assert (Hn : forallb (fun x => negb (is_pyspace x)) s = true).
+  { eapply forallb_impl; [|exact H]. intros x Hx. apply negb_true_iff. now apply dchar_facts. }
+  unfold py_strip. rewrite (drop_while_nohead _ s Hn).
+  rewrite drop_while_nohead by (rewrite forallb_rev; exact Hn). apply rev_involutive.
+Qed.
+
+Lemma strip_us_dchars s : forallb dchar s = true -> strip_us 0%N s = Some s.
+Proof.
+  intros H. apply strip_us_none; [reflexivity|].
+  eapply forallb_impl; [|exact H]. intros x Hx. apply negb_true_iff. now apply dchar_facts.
+Qed.
+
+Definition sign3 (sg : str) : Prop := sg = [] \/ sg = [45%N] \/ sg = [43%N].
+
+Definition exp_shape (ex : str) : Prop :=
+  ex = [] \/ exists c sg ds, ex = c :: sg ++ ds /\ (c = 69%N \/ c = 101%N) /\ sign3 sg /\ all_digits ds = true.
+
+Lemma dchar_digits l : forallb is_digit l = true -> forallb dchar l = true.
+Proof. apply forallb_impl. intros x Hx. unfold dchar. now rewrite Hx. Qed.
+
+Lemma dchar_sign sg : sign3 sg -> forallb dchar sg = true.
+Proof. intros [->|[->| ->]]; reflexivity. Qed.
+
+Lemma dchar_exp ex : exp_shape ex -> forallb dchar ex = true.
+Proof.
+  intros [->|(c & sg & ds & -> & Hc & Hsg & A)]; [reflexivity|].
+  cbn [forallb]. rewrite forallb_app, (dchar_sign sg Hsg), (dchar_digits ds (all_digits_forallb _ A)).
+  destruct Hc as [->| ->]; reflexivity.
+Qed.
+
+Lemma take_sign_digits sg ds : sign3 sg -> all_digits ds = true -> take_sign (sg ++ ds) = (str_eqb sg [45%N], ds).
+Proof.
+  intros Hsg A. destruct (all_digits_cons _ A) as (c & r & -> & Hc & _).
+  destruct (digit_not_sign c Hc) as (H45 & H43 & _).
+  destruct Hsg as [->|[->| ->]]; cbn [app take_sign str_eqb]; [now rewrite H45, H43|reflexivity|reflexivity].
+Qed.
+
+Lemma parse_exp_shape ex : exp_shape ex -> exists x, parse_exp ex = Some x.
+Proof.
+  intros [->|(c & sg & ds & -> & Hc & Hsg & A)]; [cbn; eauto|].
+  cbn [parse_exp]. assert (E : ((c =? 101) || (c =? 69))%N = true) by (destruct Hc as [->| ->]; reflexivity).
+  rewrite E, (take_sign_digits sg ds Hsg A). change (all_digits1 ds) with (all_digits ds). rewrite A. eauto.
+Qed.
+
+(** an exponent part is empty or starts with a letter *)
+Lemma exp_head ex : exp_shape ex -> match ex with [] => true | x :: _ => negb (is_digit x) && negb (x =? 46)%N end = true.
+Proof. intros [->|(c & sg & ds & -> & [->| ->] & _)]; reflexivity. Qed.
+
+(** python float() reads every numeric xsd:double literal:
+    sign?  digits* ( . digits* )?  exponent?   with at least one digit in the mantissa *)
+Lemma f_of_str_double sg ip dot ex :
+  sign3 sg -> forallb is_digit ip = true ->
+  ((dot = [] /\ ip <> []) \/ exists fp, dot = 46%N :: fp /\ forallb is_digit fp = true /\ ip ++ fp <> []) ->
+  exp_shape ex -> exists f, f_of_str (sg ++ ip ++ dot ++ ex) = Ok f.
+Proof.
+  intros Hsg Hip Hdot Hex.
+  assert (Ddot : forallb dchar dot = true).
+  { destruct Hdot as [[-> _]|(fp & -> & Hfp & _)]; [reflexivity|]. cbn [forallb]. now rewrite (dchar_digits fp Hfp). }
+  assert (Dall : forallb dchar (sg ++ ip ++ dot ++ ex) = true).
+  { rewrite !forallb_app, (dchar_sign sg Hsg), (dchar_digits ip Hip), Ddot, (dchar_exp ex Hex). reflexivity. }
+  (* the mantissa starts with a digit or the point *)
+  assert (Hu : exists c r, ip ++ dot ++ ex = c :: r /\ (is_digit c = true \/ c = 46%N)).
+  { destruct ip as [|c r].
+    - destruct Hdot as [[_ H]|(fp & -> & _ & _)]; [contradiction|]. cbn [app]. eauto.
+    - cbn [forallb] in Hip. apply andb_true_iff in Hip as [Hc _]. cbn [app]. eauto. }
+  destruct Hu as (c & r & Eu & Hc).
+  assert (Cf : (c =? 45)%N = false /\ (c =? 43)%N = false /\ (c =? 105)%N = false /\ (c =? 110)%N = false /\ ascii_lower c = c).
+  { unfold ascii_lower. destruct Hc as [Hc| ->]; [|repeat split; reflexivity].
+    apply is_digit_bounds in Hc. clear - Hc. repeat split; try lia.
+    destruct (N.leb_spec 65 c); [lia|reflexivity]. }
+  destruct Cf as (C45 & C43 & C105 & C110 & Clow).
+  unfold f_of_str. rewrite (py_strip_dchars _ Dall), (strip_us_dchars _ Dall).
+  assert (Htake : take_sign (sg ++ ip ++ dot ++ ex) = (str_eqb sg [45%N], ip ++ dot ++ ex)).
+  { rewrite Eu. destruct Hsg as [->|[->| ->]]; cbn [app take_sign str_eqb]; [now rewrite C45, C43|reflexivity|reflexivity]. }
+  rewrite Htake.
+  assert (Hlow : map ascii_lower (ip ++ dot ++ ex) = c :: map ascii_lower r) by (rewrite Eu; cbn [map]; now rewrite Clow).
+  rewrite Hlow. unfold s_inf, s_infinity, s_nan. rewrite !str_eqb_hd_ne by assumption. cbn [orb].
+  destruct (parse_exp_shape ex Hex) as [x Hx]. pose proof (exp_head ex Hex) as Hh.
+  destruct Hdot as [[-> Hne]|(fp & -> & Hfp & Hne)].
+  - (* no point *) cbn [app].
+    rewrite (take_while_app_hd is_digit ip ex Hip), (drop_while_app_hd is_digit ip ex Hip);
+      try (destruct ex; [reflexivity|]; now apply andb_true_iff in Hh as [-> _]).
+    destruct ip as [|i0 ip']; [contradiction|].
+    destruct ex as [|c0 r0].
+    + cbv beta iota zeta. rewrite app_nil_r, Hx. eauto.
+    + apply andb_true_iff in Hh as [_ Hh]. apply negb_true_iff in Hh. rewrite Hh.
+      cbv beta iota zeta. rewrite app_nil_r, Hx. eauto.
+  - (* a point *) cbn [app].
+    rewrite (take_while_app_stop is_digit ip 46%N (fp ++ ex) Hip eq_refl),
+            (drop_while_app_stop is_digit ip 46%N (fp ++ ex) Hip eq_refl).
+    rewrite N.eqb_refl.
+    rewrite (take_while_app_hd is_digit fp ex Hfp), (drop_while_app_hd is_digit fp ex Hfp);
+      try (destruct ex; [reflexivity|]; now apply andb_true_iff in Hh as [-> _]).
+    destruct (ip ++ fp) as [|d0 ds0] eqn:Ed; [contradiction|]. rewrite Hx. eauto.
+Qed.
+
+Lemma cls2_mem a b c : cls_mem [(a, a); (b, b)] [] c = true -> c = a \/ c = b.
+Proof.
+  unfold cls_mem, in_ranges. cbn [existsb fst snd negb]. intros H. clear - H. lia.
+Qed.
+
+Lemma sign_den s : re_den rsign s -> sign3 s.
+Proof.
+  intros H. apply ropt_den in H as [->|H]; [now left|]. destruct (inv_cls _ _ _ H) as (c & -> & M).
+  apply cls2_mem in M as [->| ->]; [right; now right|right; now left].
+Qed.
+
+Lemma mantissa_den m : re_den re_mantissa m ->
+  exists ip dot, m = ip ++ dot /\ forallb is_digit ip = true /\
+    ((dot = [] /\ ip <> []) \/ exists fp, dot = 46%N :: fp /\ forallb is_digit fp = true /\ ip ++ fp <> []).
+Proof.
+  intros H. unfold re_mantissa in H. apply inv_alt in H as [H|H].
+  - destruct (inv_cat _ _ _ H) as (ip & dot & -> & Hi & Hd). exists ip, dot. split; [reflexivity|].
+    assert (A : all_digits ip = true) by (eapply re_all_digits; [exact Hi|reflexivity|reflexivity]).
+    split; [now apply all_digits_forallb|].
+    assert (Ne : ip <> []) by (intros ->; discriminate A).
+    apply ropt_den in Hd as [->|Hd]; [left; auto|right].
+    destruct (inv_cat _ _ _ Hd) as (p & fp & -> & Hp & Hf). apply rch_den in Hp. subst p.
+    exists fp. split; [reflexivity|]. split; [eapply re_digits_den; [exact Hf|reflexivity]|].
+    intros E. apply app_eq_nil in E as [E _]. contradiction.
+  - destruct (inv_cat _ _ _ H) as (p & fp & -> & Hp & Hf). apply rch_den in Hp. subst p.
+    exists [], (46%N :: fp). split; [reflexivity|]. split; [reflexivity|]. right. exists fp. split; [reflexivity|].
+    assert (A : all_digits fp = true) by (eapply re_all_digits; [exact Hf|reflexivity|reflexivity]).
+    split; [now apply all_digits_forallb|]. cbn [app]. intros ->. discriminate A.
+Qed.
+
+Lemma exponent_den ex : re_den re_exponent ex -> exp_shape ex.
+Proof.
+  intros H. unfold re_exponent in H. apply ropt_den in H as [->|H]; [now left|right].
+  destruct (inv_cat _ _ _ H) as (p & rest & -> & Hp & Hr). destruct (inv_cls _ _ _ Hp) as (c & -> & M).
+  destruct (inv_cat _ _ _ Hr) as (sg & ds & -> & Hsg & Hds).
+  exists c, sg, ds. split; [reflexivity|]. split; [now apply cls2_mem|]. split; [now apply sign_den|].
+  eapply re_all_digits; [exact Hds|reflexivity|reflexivity].
+Qed.
+
+(** python float() reads every xsd:double literal ( the transcribed lexical space re_double ) *)
+Lemma py_float_double s : re_matches re_double s = true -> exists f, py_float (PStr s) = Ok (PFloat f).
+Proof.
+  intros H. apply re_matches_den in H. unfold re_double in H.
+  apply inv_alt in H as [H|H]; [|apply inv_alt in H as [H|H]; [|apply inv_alt in H as [H|H]]].
+  - unfold re_double_num in H. destruct (inv_cat _ _ _ H) as (sg & rest & -> & Hsg & Hr).
+    destruct (inv_cat _ _ _ Hr) as (m & ex & -> & Hm & Hex).
+    destruct (mantissa_den m Hm) as (ip & dot & -> & Hip & Hdot).
+    rewrite <- app_assoc. cbn [py_float].
+    destruct (f_of_str_double sg ip dot ex (sign_den _ Hsg) Hip Hdot (exponent_den _ Hex)) as [f ->].
+    cbn [bind]. eauto.
+  - apply rlit_den in H. subst s. vm_compute. eauto.
+  - apply rlit_den in H. subst s. vm_compute. eauto.
+  - apply rlit_den in H. subst s. vm_compute. eauto.
+Qed.
+
+(** R for XsdDouble ( c:v text ... /@val of xsd:double ) and ST_AxisUnit: every xsd:double literal is read;
+    no length limit: python float never raises on a numeric literal *)
+Theorem R_XsdDouble : forall s, re_matches re_double s = true -> exists v, XsdDouble__from_xml (PStr s) = Ok v.
+Proof.
+  intros s H. destruct (py_float_double s H) as [f E].
+  unfold XsdDouble__from_xml, XsdDouble__convert_from_xml. rewrite E. eauto.
+Qed.
+
+Theorem R_AxisUnit : forall s, re_matches re_double s = true -> exists v, ST_AxisUnit__from_xml (PStr s) = Ok v.
+Proof.
+  intros s H. destruct (py_float_double s H) as [f E].
+  unfold ST_AxisUnit__from_xml, ST_AxisUnit__convert_from_xml. rewrite E. eauto.
+Qed.
+
+Example R_double_examples :
+  re_matches re_double [43; 46; 53; 101; 45; 51]%N = true
+  /\ XsdDouble__from_xml (PStr [43; 46; 53; 101; 45; 51]%N) = Ok (PFloat (Fin 4611686018427388 (-63)))
+  /\ re_matches re_double [49; 46]%N = true /\ XsdDouble__from_xml (PStr [49; 46]%N) = Ok (PFloat (Fin 4503599627370496 (-52)))
+  /\ re_matches re_double [45; 73; 78; 70]%N = true /\ ST_AxisUnit__from_xml (PStr [45; 73; 78; 70]%N) = Ok (PFloat NInf)
+  /\ re_matches re_double [78; 97; 78]%N = true /\ XsdDouble__from_xml (PStr [78; 97; 78]%N) = Ok (PFloat NaN).
+Proof. vm_compute. repeat split. Qed.
+
+(** ---- identity readers whose type is a pattern facet: ST_ContentType, ST_Extension ( OPC ) ---- *)
+Theorem R_ContentType : forall s, exists v, ST_ContentType__from_xml (PStr s) = Ok v.
+Proof. intros s. eexists. reflexivity. Qed.
+Theorem R_Extension : forall s, exists v, ST_Extension__from_xml (PStr s) = Ok v.
+Proof. intros s. eexists. reflexivity. Qed.
